@@ -29,6 +29,8 @@ NAME_CLASSES = {
     'nl': ('a\nb',),
     'ws-edge': (' lead', 'trail ', ' both '),
     'unicode-edge': ('Sensor\u0663', 'Auto\ufeffSave', 'a\u2028b', 'a\u0085b', 'Caf\u00e9', 'Cafe\u0301', '\u212b', 'a\u00a0b', 'x\u00ad'),
+    'numberlike': ('2', '64', '1.0', '1e3', 'nan', 'inf', '-1', '1_000', '0x1F', ' 7 ', '\u0663'),
+    'dashes': ('a--b', '--', 'a-->b', "A'", "x''", "'a", '<!--a'),
     'rare': ('100%', 'e\u0301', 'a\u200bb', '\U0001f642x', 'n' * 120, 'a\\', '%d{0}', 'A', 'x_1_'),
 }
 
@@ -37,7 +39,15 @@ ATTR_VALUES = (None, True, False, 0, 1, 1.0, 0.0, 7, -3, 2.5, -0.25, 100.0, 'x',
                {'k': [1, {'z': True}]}, [[1, 2], [3, 4]], 0.30000000000000004, -12345, 'say "hi"', 'a, b} c [d', ' lead',
                {'m': {'n': {'o': -1.5}}}, [False, 'x', 2.25], 2 ** 31, 2 ** 63 + 1, -2 ** 40, 9007199254740993, 123456.789,
                2 ** 53 + 1, 2 ** 63 - 1, -9007199254740993, '90071992547409931234', '-18446744073709551617', '4711', '007', '1e5', 'true', 'null',
-               'x' * 300, [1, 2, 3, 4, 5, 6, 7, 8, 9, 10, 11, 12], {'k%d' % i: i for i in range(12)})
+               'x' * 300, [1, 2, 3, 4, 5, 6, 7, 8, 9, 10, 11, 12], {'k%d' % i: i for i in range(12)},
+               'a\r\nb', '\r', 'a\rb', 'a\nb', '\n', 'tab\there', {'abstract': True, 'owner': 'core'}, [{'abstract': True}],
+               {'meta': {'abstract': 'yes', 'name': 'n', 'type': 't'}}, '10', '-3', '2.50')
+
+# attribute names that coincide with keys / keywords the formats use for something else
+ATTR_NAME_DEVS = (('abstract', True), ('abstract', None), ('abstract', 'summary of the paper'), ('abstract', False), ('Abstract', True),
+                  ('name', 'x'), ('type', 'x'), ('cardinality', 1), ('relations', [1, 2]), ('attributes', {'k': 1}), ('value', 2),
+                  ('card_min', 1), ('children', []), ('constraints', 'x'), ('expr', 'y'), ('features', 1), ('id', 'zz'),
+                  ('optional', True), ('default', 3), ('null', 4))
 
 FTYPES = ('Integer', 'Real', 'String')
 FCARDS = ((0, 1), (1, 3), (2, 2), (1, -1), (0, -1))
@@ -165,6 +175,9 @@ class Format:
     name = '?'
     ext = 'txt'
     binary = False
+    writer_cls = None
+    reader_cls = None
+    reuse_stride = 1               # quick tier: object-reuse histories on every n-th state (by state hash)
     compare_order = False          # children/relations order must be preserved
     star_ok = False                # card_max -1 may come back as the number of children
 
@@ -189,6 +202,7 @@ def roundtrip(fmt, model, cycles=2):
     try:
         t0 = fmt.write(fm0, p0)
         engine.tick()
+        engine.note(t0)
     except Exception as exc:  # noqa: BLE001
         return [Fail('write-raises:%s' % type(exc).__name__, str(exc)[:200])]
     if bd.observe(fm0) != model:
@@ -235,12 +249,161 @@ def roundtrip(fmt, model, cycles=2):
         if (prev_text is not None and t != prev_text) or ob_n != prev_ob:
             break
         prev_text, prev_ob, fm_prev = t, ob_n, fm_n
+    if not out and fmt.writer_cls is not None and sh.size(model) <= REUSE_MAX_SIZE and \
+            (engine.TIER['tier'] != 'quick' or fmt.reuse_stride <= 1 or int(engine.case_key(model)[:6], 16) % fmt.reuse_stride == 0):
+        try:
+            reuse(fmt, model, t0, ob1, out)
+        except AssertionError:
+            raise
+        except Exception as exc:  # noqa: BLE001
+            out.append(Fail('reuse-raises:%s' % type(exc).__name__, str(exc)[:200]))
     for p in (p0, p1):
         try:
             os.remove(p)
         except OSError:
             pass
     return out
+
+
+REUSE_MAX_SIZE = 4
+
+
+def reuse(fmt, model, text0, ob1, out):
+    """Histories on one writer / one reader object, and on one model object edited in place.
+    Every expectation is differential: what a fresh object gives for the same content."""
+    from .c03 import inplace_edits
+    pa = engine.tmppath('ru_a.' + fmt.ext)
+    pb = engine.tmppath('ru_b.' + fmt.ext)
+    other = OTHER_MODEL if model[0][0] != OTHER_MODEL[0][0] else OTHER_MODEL2
+    other_text = fmt.write(bd.build(other), pb)
+    other_ob = bd.observe(fmt.read(pb))
+    try:
+        # --- one reader object: twice on the same file, then on the re-written file, then after a failure
+        fmt.write(bd.build(model), pa)
+        rd = fmt.reader_cls(pa)
+        first = rd.transform()
+        second = rd.transform()
+        engine.tick(2)
+        if bd.observe(second) != ob1:
+            out.append(Fail('reader-reuse:second-transform-differs', {'first': cm._safe_str(ob1), 'second': cm._safe_str(bd.observe(second))}))
+            return
+        if bd.observe(first) != ob1:
+            out.append(Fail('reader-reuse:earlier-result-changed', {'was': cm._safe_str(ob1), 'now': cm._safe_str(bd.observe(first))}))
+            return
+        _put(pa, other_text)
+        third = rd.transform()
+        engine.tick()
+        if bd.observe(third) != other_ob:
+            out.append(Fail('reader-reuse:rewritten-file', {'file now denotes': cm._safe_str(other_ob), 'read': cm._safe_str(bd.observe(third))}))
+            return
+        damaged = _damage(text0)
+        if damaged is not None:
+            _put(pa, damaged)
+            rd2 = fmt.reader_cls(pa)
+            raised = []
+            for _i in range(2):
+                try:
+                    rd2.transform()
+                    raised.append(False)
+                except Exception:  # noqa: BLE001
+                    raised.append(True)
+            engine.tick(2)
+            if raised[0] and not raised[1]:
+                out.append(Fail('reader-reuse:damaged-document-accepted-at-second-attempt', {'document': _short(damaged)}))
+                return
+            if raised[0]:
+                _put(pa, text0)
+                again = rd2.transform()
+                if bd.observe(again) != ob1:
+                    out.append(Fail('reader-reuse:after-failed-transform', {'want': cm._safe_str(ob1), 'read': cm._safe_str(bd.observe(again))}))
+                    return
+        # --- one writer object: twice, after an in-place edit, after a failing call
+        fm = bd.build(model)
+        wr = fmt.writer_cls(pa, fm)
+        a = wr.transform()
+        b = wr.transform()
+        engine.tick(2)
+        if a != text0 or b != text0:
+            out.append(Fail('writer-reuse:repeated-transform-differs', {'fresh': _short(text0), 'first': _short(a), 'second': _short(b)}))
+            return
+        edits = inplace_edits(model)
+        step = max(1, len(edits) // REUSE_EDITS)
+        chosen = [e for e in edits if e[0].startswith('constraint ')] + edits[::step]
+        if any(f[5] or f[2] for f in sh.features(model)):
+            chosen += [e for e in edits if e[0].startswith('move ') or e[0].startswith('remove ')]     # decorated features change their position
+        for (what, edit, em) in chosen:
+            try:
+                want = fmt.write(bd.build(em), pb)
+            except Exception:  # noqa: BLE001   (edited model outside the format's fragment)
+                continue
+            fm = bd.build(model)
+            wr = fmt.writer_cls(pa, fm)
+            wr.transform()
+            edit(fm)
+            if bd.observe(fm) != em:
+                raise AssertionError('in-place edit did not give the expected model: %s' % what)
+            got = wr.transform()
+            engine.tick(3)
+            if got != want:
+                out.append(Fail('writer-reuse:after-inplace-edit', {'edit': what, 'fresh writer': _short(want), 'reused writer': _short(got)}))
+                return
+            got2 = fmt.write(fm, pa)
+            if got2 != want:
+                out.append(Fail('write-after-inplace-edit', {'edit': what, 'fresh model': _short(want), 'edited model': _short(got2)}))
+                return
+        # a transform that raises half-way (one child is not a Feature), repaired in place, same writer again
+        for path, _f in list(sh._paths(model[0]))[1:]:
+            fm = bd.build(model)
+            wr = fmt.writer_cls(pa, fm)
+            obj = fm.root
+            for (ri, ci) in path[:-1]:
+                obj = obj.relations[ri].children[ci]
+            ri, ci = path[-1]
+            kids = obj.relations[ri].children
+            good = kids[ci]
+            kids[ci] = None
+            try:
+                wr.transform()
+                failed = False
+            except Exception:  # noqa: BLE001
+                failed = True
+            kids[ci] = good
+            engine.tick()
+            if not failed:
+                continue
+            got = wr.transform()
+            if got != text0:
+                out.append(Fail('writer-reuse:after-failed-transform', {'fresh writer': _short(text0), 'reused writer': _short(got)}))
+                return
+            got = fmt.write(bd.build(model), pa)
+            if got != text0:
+                out.append(Fail('write-after-failed-transform', {'before': _short(text0), 'after': _short(got)}))
+                return
+    finally:
+        for p in (pa, pb):
+            try:
+                os.remove(p)
+            except OSError:
+                pass
+
+
+REUSE_EDITS = 6
+OTHER_MODEL = sh.M(sh.F('Zq', [sh.R(0, 1, [sh.F('Yq')]), sh.R(1, 1, [sh.F('Xq')])]), [('k9', ('IMPLIES', 'Yq', 'Xq'))])
+OTHER_MODEL2 = sh.M(sh.F('Wq', [sh.R(0, 1, [sh.F('Yq')]), sh.R(1, 1, [sh.F('Xq')])]), [('k9', ('IMPLIES', 'Yq', 'Xq'))])
+
+
+def _put(path, text):
+    with open(path, 'wb') as fh:
+        fh.write(text if isinstance(text, bytes) else text.encode('utf8'))
+
+
+def _damage(text):
+    """A document that is certainly not well-formed: the second half is cut off inside a token."""
+    if isinstance(text, bytes):
+        return text[:max(1, len(text) * 2 // 3)] + b'<<<'
+    if len(text) < 8:
+        return None
+    return text[:len(text) * 2 // 3] + ' {{{ [[[ "'
 
 
 def _short(t):
